@@ -478,8 +478,14 @@ def s_closures(ctx, impl):
     write closure moved to module level, with the captured values passed as
     arguments, is the same transaction root."""
     out = []
-    for fs in impl.nested.values():
-        out.extend(fs)
+    todo = [impl]
+    while todo:
+        cur = todo.pop()
+        for fs in cur.nested.values():
+            for x in fs:
+                if x not in out:
+                    out.append(x)
+                    todo.append(x)
     for g in [impl] + list(out):
         for s_ in ctx.cg.calls_in(g):
             for c in s_.callees:
